@@ -456,7 +456,11 @@ class TG:
                 return "{{" + t1 + "{" + p + "}" + t2 + "}}"
             return "{{" + t1 + "&" + p + t2 + "}}"
         if k == "helper":
-            h = rng.pick(["lookup", "eq", "gt", "len", "not", "and", "or", "lt", "ne"] + list(self.helpers.keys()))
+            h = rng.pick(["lookup", "eq", "gt", "len", "not", "and", "or", "lt", "ne", "log"] + list(self.helpers.keys()))
+            if h == "log":
+                # writes nothing; a bad level is an error
+                lvl = rng.pick(["", "", " level=\"info\"", " level=\"WARN\"", " level=\"trace\"", " level=\"loud\"", " level=1"])
+                return "{{" + t1 + "log " + " ".join(self.arg(scopes) for _ in range(rng.range(0, 2))) + lvl + t2 + "}}"
             if self.helpers.get(h) == "evalp":
                 p, _ = self.path_in(scopes)
                 return "{{" + h + " " + str_lit(rng, p) + "}}"
